@@ -214,6 +214,8 @@ def _maxrow():
 
 def _build_cel(c, r):
     r = str(r and int(r) or '')
+    if c == _maxcol() and r == _maxrow():  # The last cell keeps its name.
+        return c, r
     return c != _maxcol() and c or '', r != _maxrow() and r or ''
 
 
